@@ -3,6 +3,9 @@ package resilience
 import (
 	"context"
 	"errors"
+	"reflect"
+	"strconv"
+	"strings"
 	"time"
 
 	libcb "github.com/megaease/easegress/pkg/util/circuitbreaker"
@@ -54,8 +57,32 @@ func vRandIntn(n int) int {
 
 var errAttempt = errors.New("attempt failed")
 
+// vSchemaInt reads a numeric jsonschema constraint (minimum / maximum) from the struct tag of a
+// field, through the engine's reflect model: the generators below take the admissible range
+// from the tags of the current source, not from a copy made when the harness was written.
+func vSchemaInt(v interface{}, field, key string, dflt int) int {
+	t := reflect.TypeOf(v)
+	for i := 0; i < t.NumField(); i++ {
+		f := t.Field(i)
+		if f.Name != field {
+			continue
+		}
+		for _, part := range strings.Split(f.Tag.Get("jsonschema"), ",") {
+			if strings.HasPrefix(part, key+"=") {
+				n, err := strconv.Atoi(part[len(key)+1:])
+				if err == nil {
+					return n
+				}
+			}
+		}
+	}
+	return dflt
+}
+
 func vRetryPolicy() *RetryPolicy {
-	p := &RetryPolicy{MaxAttempts: verifChoose("maxAttempts", verifBound("maxAttempts")) + 1}
+	// maxAttempts: every value the schema admits from its minimum up to the bound
+	min := vSchemaInt(RetryPolicy{}, "MaxAttempts", "minimum", 0)
+	p := &RetryPolicy{MaxAttempts: verifChoose("maxAttempts", verifBound("maxAttempts")+1-min) + min}
 	// every text below satisfies format=duration (time.ParseDuration accepts it)
 	switch verifChoose("waitDuration", 5) {
 	case 0:
